@@ -51,7 +51,7 @@ structure WInv (P : Params) (written : List Blk) (W : WSt) : Prop where
   setsIdx : W.sets.map (·.1) = (written.filter isFB).map (·.index)
   effProv : ∀ e ∈ W.effs, (∃ loc, e.e = .start loc) ∨ (∃ k m, e.e = .sparse k m) ∨
               (∃ k v y, e.e = .word k v ∧ y ∈ written ∧ isFB y = false ∧ y.data ≠ [] ∧ y.inode = some e.id ∧ y.index = k)
-  effIds : ∀ e ∈ W.effs, ∃ y ∈ written, y.inode = some e.id
+  effIds : ∀ e ∈ W.effs, ∃ y ∈ written, isFB y = false ∧ y.inode = some e.id
 
 /-! ### the state -/
 
@@ -77,39 +77,53 @@ def Ghost.F (P : Params) (g : Ghost) : FSt :=
 
 def boolNat (b : Bool) : Nat := if b then 1 else 0
 
-structure PInv (P : Params) (s : Proc) (g : Ghost) (held : Nat) (W : WSt) : Prop where
+/-- everything except the front end's own fields and the backlog counter; `F` is the fragment pass so far and `W` the
+writer pass on the first `io_deq_seq_num` blocks of its stream -/
+structure Back (P : Params) (s : Proc) (g : Ghost) (F : FSt) (W : WSt) : Prop where
   maxBacklog : 3 ≤ s.maxBacklog
   -- pool and queues
   pool : PoolOk s.pool g.items
   pend : g.items.filter (fun b => !isFB b) = g.pend
   worked : g.done ++ g.pend = g.front.map (processBlock P)
-  acct : s.backlog = g.items.length + s.ioQueue.length + boolNat s.fragBlock.isSome + boolNat s.blkCurrent.isSome + held
-  deqLe : s.ioDeqSeqNum ≤ (g.F P).stream.length
-  queue : (s.ioQueue ++ g.items.filter isFB).Perm ((g.F P).stream.drop s.ioDeqSeqNum)
+  deqLe : s.ioDeqSeqNum ≤ F.stream.length
+  queue : (s.ioQueue ++ g.items.filter isFB).Perm (F.stream.drop s.ioDeqSeqNum)
   sorted : s.ioQueue.Pairwise (fun a b => a.seq < b.seq)
-  -- front end
-  feInv : FrontInv P.B s.fe g.front s.w.inodes.length
-  finNoPend : g.fin = true → g.pend = []
+  -- what the front end submitted
+  itemsOK : ∀ x ∈ g.front, ItemOK P.B s.w.inodes.length x
+  fprotoOK : fproto false g.front = true
   -- fragment pass
-  finv : FInv P s.w.inodes.length g.done (g.F P)
-  fragBlock : s.fragBlock = (g.F P).opn
-  fragHt : s.fragHt = (g.F P).ht
-  ioSeq : s.ioSeqNum = (g.F P).stream.length
+  finv : FInv P s.w.inodes.length g.done F
+  fragBlock : s.fragBlock = F.opn
+  fragHt : s.fragHt = F.ht
+  ioSeq : s.ioSeqNum = F.stream.length
   -- writer pass
-  wrun : wRun { wr := BlockWriter.init P.pre } ((g.F P).stream.take s.ioDeqSeqNum) = .ok W
-  winv : WInv P ((g.F P).stream.take s.ioDeqSeqNum) W
+  wrun : wRun { wr := BlockWriter.init P.pre } (F.stream.take s.ioDeqSeqNum) = .ok W
+  winv : WInv P (F.stream.take s.ioDeqSeqNum) W
   wr : s.w.wr = W.wr
   calls : s.w.calls = W.calls
-  fragTbl : s.w.fragTbl = applySets (List.replicate (g.F P).ntbl (0, 0)) W.sets
-  inodes : ∃ n, s.w.inodes = applyEffs (List.replicate n {}) g.h
+  fragTbl : s.w.fragTbl = applySets (List.replicate F.ntbl (0, 0)) W.sets
+  inodes : s.w.inodes = applyEffs (List.replicate s.w.inodes.length {}) g.h
   mergeH : Merge g.h g.fe g.m
-  mergeM : Merge g.m (g.F P).effs W.effs
+  mergeM : Merge g.m F.effs W.effs
   feIds : ∀ e ∈ g.fe, e.id < s.w.inodes.length ∧ ∃ k, e.e = .size k
   -- where fragment-block bytes live
-  inFlSub : ∀ e ∈ s.fblkInFlight, e ∈ (g.F P).closed
+  inFlSub : ∀ e ∈ s.fblkInFlight, e ∈ F.closed
   inFlNodup : (s.fblkInFlight.map (·.1)).Nodup
-  inFlAll : P.byteCompare = true → ∀ b ∈ (g.F P).stream.drop s.ioDeqSeqNum, isFB b = true → b.index ∈ s.fblkInFlight.map (·.1)
+  inFlAll : P.byteCompare = true → ∀ b ∈ F.stream.drop s.ioDeqSeqNum, isFB b = true → b.index ∈ s.fblkInFlight.map (·.1)
   inFlNone : P.byteCompare = false → s.fblkInFlight = []
-  cache : ∀ ci cd, s.cachedFragBlk = some (ci, cd) → (ci, cd) ∈ (g.F P).closed
+  cache : ∀ ci cd, s.cachedFragBlk = some (ci, cd) → (ci, cd) ∈ F.closed
+
+/-- `backlog` counts the blocks inside the pool, in `io_queue`, the open fragment block, and `k` more
+(`blk_current`, a block just obtained from `get_new_block`, a block just taken back from the pool) -/
+def Acct (s : Proc) (g : Ghost) (k : Nat) : Prop :=
+  s.backlog = g.items.length + s.ioQueue.length + boolNat s.fragBlock.isSome + k
+
+/-- the invariant of the implementation model between two primitive steps; `held` = blocks the front end has
+obtained from `get_new_block` and not yet stored in `blk_current` or submitted -/
+structure PInv (P : Params) (s : Proc) (g : Ghost) (held : Nat) (W : WSt) : Prop where
+  back : Back P s g (g.F P) W
+  acct : Acct s g (boolNat s.blkCurrent.isSome + held)
+  feInv : FrontInv P.B s.fe g.front s.w.inodes.length
+  finNoPend : g.fin = true → g.pend = []
 
 end Sqfs.BlockProc
